@@ -367,7 +367,7 @@ def _quick_valid(pc, goal, timeout_ms):
     f = z3.And(*pc2, z3.Not(goal2)) if pc2 else z3.Not(goal2)
     if has_quantifier(f):
         s2 = z3.Solver()
-        s2.set('timeout', min(timeout_ms, 600))
+        s2.set('timeout', timeout_ms)      # E-matching saturates quickly when there is no proof; a generous cap only matters under load
         s2.set('auto_config', False)
         s2.set('mbqi', False)
         s2.add(f)
@@ -459,6 +459,10 @@ def solve(ob, timeout_ms=10000, fallback=True):
     whole; if that does not succeed the goal is decomposed (conjuncts, skolemised universals) and
     every leaf has to be discharged."""
     t0 = time.time()
+    if getattr(ob, 'preset', None):
+        ob.status, ob.reason = ob.preset
+        ob.backend = 'none'
+        return ob
     pc, goal = resolve_ites(ob.pc, ob.goal)
     f = z3.And(*pc, z3.Not(goal)) if pc else z3.Not(goal)
     quant = _has_quantifier(f)
